@@ -15,7 +15,7 @@ RULE = ('neurons of every type (skeleton with connectors/radius, mesh, dotprops,
         'units/name/id. non-trivial = per-axis factor or non-trivial units; distinct = distinct (type, coordinates, operation, parameters).')
 ASSUMPTIONS = ['pint parses unit strings (trusted); the harness compares units by converting them to nanometres']
 NM = {'nm': 1.0, 'nanometer': 1.0, '1 nm': 1.0, '8 nm': 8.0, 'um': 1000.0, 'micron': 1000.0, 'microns': 1000.0, 'micrometer': 1000.0, '1000 nm': 1000.0,
-      '2 um': 2000.0}
+      '2 um': 2000.0, 'mm': 1e6, '500 um': 5e5}
 
 
 def unit_nm(x):
@@ -192,6 +192,23 @@ def run(ctx):
         want = dist * 1000.0 / NM[spell]
         if st != 'ok' or abs(float(m) - want) > 1e-6 * want:
             ctx.violation('map_units does not denote the same physical length', dict(desc, distance='%g microns' % dist), dict(got=str(m), want=want))
+        # small lengths on coarse units (map_units rounds to 8 decimals, or 8 significant digits above 1: never more than that)
+        for small in ('125 nm', '3 nm', '40 nm', '7.5 um'):
+            wsm = float(small.split()[0]) * (1000.0 if small.endswith('um') else 1.0) / NM[spell]
+            st, m = guarded(x.map_units, small)
+            ctx.count('map_units:small')
+            if st != 'ok' or abs(float(m) - wsm) > 0.6e-8 * max(1.0, wsm):
+                ctx.violation('map_units does not denote the same physical length', dict(desc, distance=small), dict(got=str(m), want=wsm))
+                break
+        # the units of a list of neurons in different units, read through the list: each entry is that neuron's physical voxel size
+        st, z = guarded(lambda: x / 125 if rng.random() < 0.5 else x.convert_units('um' if NM[spell] < 1000 else 'nm', inplace=False))
+        if st == 'ok':
+            nl = navis.NeuronList([x, z])
+            st, lu = guarded(lambda: [float(q.to('nm').magnitude) for q in nl.units])
+            wu = [float(unit_nm(x)[1][0]), float(unit_nm(z)[1][0])]
+            ctx.count('neuronlist-units')
+            if st != 'ok' or any(abs(a_ - b_) > 1e-9 * b_ for a_, b_ in zip(lu, wu)):
+                ctx.violation('units read through a NeuronList are not the physical units of its members', desc, dict(got=str(lu), want=wu))
         st1, a = guarded(navis.prune_twigs, x, size='%g microns' % dist, inplace=False)
         st2, b = guarded(navis.prune_twigs, x, size=want, inplace=False)
         if st1 != st2 or (st1 == 'ok' and sorted(a.nodes.node_id.values) != sorted(b.nodes.node_id.values)):
